@@ -57,6 +57,11 @@ pub fn aspect(c: &Case, ins: &[Option<T>]) -> String {
             Some(x) if x.is_f() && x.f.iter().any(|v| *v == 0.0) => "float-zero".into(),
             _ => String::new(),
         },
+        "Div" => match (inp(0), inp(1)) {
+            // ReciprocalFusion rewrites `1 / x` (constant numerator with one element)
+            (Some(a), Some(b)) if is_init(c, 0) && a.n() == 1 && a.is_f() && a.f[0] == 1.0 && a.rank() > b.rank() => "constant-one-numerator-of-higher-rank".into(),
+            _ => String::new(),
+        },
         "Pow" => match (inp(0), inp(1)) {
             (Some(b), Some(e)) if e.n() == 1 && e.rank() > b.rank() => "one-element-exponent-of-higher-rank".into(),
             _ => String::new(),
